@@ -661,6 +661,12 @@ func legCase(r *hxlib.Run, c SCase) bool {
 		case "ctor":
 			e := runCtor(c)
 			rep = func() bool { return e.report(r, c) }
+		case "bigpiece-rot", "bigpiece-smc": // legs4.go
+			e := runLeg4(c)
+			if e.maxLen >= 3 {
+				r.NonTrivial(fmt.Sprintf("%s/%s/%d/%d/%d", c.Leg, c.Variant, c.N, c.Min, c.Seed))
+			}
+			rep = func() bool { return e.report(r, c) }
 		default:
 			rep = func() bool { r.Fail("harness", "unknown leg "+c.Leg, c); return true }
 		}
